@@ -12,7 +12,11 @@
                                          isWasmAccount, validateSmartContractSigners,
                                          ValidateSignersWithoutParties, validateAllRequiredSigned,
                                          validateRolesPresent, validatePartiesArePresent
-      x/metadata/keeper/scope.go         ValidateWriteScope, ValidateDeleteScope, ValidateUpdateScopeOwners
+      x/metadata/keeper/scope.go         ValidateWriteScope, ValidateDeleteScope, ValidateUpdateScopeOwners,
+                                         ValidateAddScopeDataAccess, ValidateDeleteScopeDataAccess (signature
+                                         part), ValidateUpdateValueOwners
+      x/metadata/keeper/signers.go       ValidateScopeValueOwnersSigners (non-marker value owners)
+      x/metadata/keeper/msg_server.go    UpdateValueOwners (GetScopeValueOwners, links.ValidateForScopes)
       x/metadata/keeper/session.go       ValidateWriteSession
       x/metadata/keeper/record.go        ValidateWriteRecord (signature part), ValidateDeleteRecord
 
@@ -28,8 +32,15 @@
         this model and outside the generators;
       - [e_wasm] lists the addresses isWasmAccount answers true for (an existing BaseAccount with
         sequence 0 and no public key);
-      - the scope has no value owner and none is proposed (ValidateScopeValueOwnersSigners then
-        requires nothing and contributes no used signers): value-owner rules belong to C09;
+      - for the scope / session / record endpoints the scope has no value owner and none is
+        proposed (ValidateScopeValueOwnersSigners then requires nothing and contributes no used
+        signers): value-owner rules belong to C09;
+      - for MsgUpdateValueOwners ([OUpdateValueOwners]) only the signer part is modelled: the
+        existing value owners are ordinary (non-marker) accounts, the scope ids in the message are
+        distinct, and the bank transfer of the scope coins that follows an accepted signer check
+        succeeds (C09 / C04 cover the transfer);
+      - the data-access lists of MsgAdd/DeleteScopeDataAccess are well formed (non-empty, not yet
+        present / present), only the signature part is modelled;
       - the non-signature parts of the write validators (ids, specification lookups, record inputs
         and outputs) are satisfied; they are not modelled.
     No proofs in this file. *)
@@ -312,8 +323,41 @@ Definition prov_role_ok (e : env) (ps : list party) : bool :=
 Definition used_of (o : option (list details)) : list Z :=
   match o with Some ds => used_signers ds | None => [] end.
 
+(** ** ValidateScopeValueOwnersSigners (existing value owners are not markers).
+    If the first signer is a smart contract every other signer is ignored. *)
+Definition vo_signers (e : env) (signers : list Z) : list Z :=
+  match signers with
+  | [] => []
+  | s0 :: _ => if is_wasm e s0 then [s0] else signers
+  end.
+
+(** the loop over the existing value owners; returns the used signers, [None] = error *)
+Fixpoint vo_loop (e : env) (proposed : Z) (sg : list Z) (existing : list Z) : option (list Z) :=
+  match existing with
+  | [] => Some []
+  | x :: rest =>
+      if Z.eqb x proposed then vo_loop e proposed sg rest
+      else if mem x sg then option_map (cons x) (vo_loop e proposed sg rest)
+      else match find_grantee e x sg with
+           | Some g => option_map (cons g) (vo_loop e proposed sg rest)
+           | None => None
+           end
+  end.
+
+Definition validate_value_owners_signers (e : env) (existing : list Z) (proposed : Z)
+  (signers : list Z) : option (list Z) :=
+  match existing with
+  | [x] => if Z.eqb x proposed then Some []
+           else vo_loop e proposed (vo_signers e signers) existing
+  | _ => vo_loop e proposed (vo_signers e signers) existing
+  end.
+
+Definition some_addrs (l : list (option Z)) : list Z :=
+  flat_map (fun o => match o with Some a => [a] | None => [] end) l.
+Definition is_some_z (o : option Z) : bool := match o with Some _ => true | None => false end.
+
 (** ** The callers: which parties are required / available, which roles, per endpoint.
-    All without a value owner (see header). *)
+    All without a value owner (see header) except [OUpdateValueOwners]. *)
 Inductive outer :=
   (* MsgWriteScopeRequest, the scope does not exist yet *)
 | OWriteScopeNew (proposed : list party) (rollup : bool) (spec_roles : list Z)
@@ -333,7 +377,14 @@ Inductive outer :=
 | OWriteRecord (rollup : bool) (scope_owners session : list party) (old_session : option (list party))
                (rspec_roles : list Z)
   (* MsgDeleteRecordRequest; [None]: the record specification no longer exists *)
-| ODeleteRecord (rollup : bool) (scope_owners : list party) (rspec_roles : option (list Z)).
+| ODeleteRecord (rollup : bool) (scope_owners : list party) (rspec_roles : option (list Z))
+  (* MsgAddScopeDataAccessRequest / MsgDeleteScopeDataAccessRequest (they differ only in the
+     message kind, i.e. in the authz grants that count); [None]: the scope specification no
+     longer exists *)
+| ODataAccess (rollup : bool) (owners : list party) (spec_roles : option (list Z))
+  (* MsgUpdateValueOwnersRequest: [vos] = the current value owner of each listed scope ([None]:
+     the scope has none / does not exist), [proposed] = the new value owner *)
+| OUpdateValueOwners (vos : list (option Z)) (proposed : Z).
 
 Definition opt_parties (o : option (list party)) : list party :=
   match o with Some l => l | None => [] end.
@@ -401,13 +452,30 @@ Definition outer_accept (e : env) (op : outer) (signers : list Z) : bool :=
            | None => validate_signers_without_parties e (required_party_addrs owners) signers
            | Some rs => validate_signers_with_parties e owners owners rs signers
            end
+  | ODataAccess rollup owners roles =>
+      if negb rollup then validate_signers_without_parties e (party_addrs owners) signers
+      else match roles with
+           | None => false
+           | Some rs => validate_signers_with_parties e owners owners rs signers
+           end
+  | OUpdateValueOwners vos proposed =>
+      (* ValidateUpdateValueOwners: some scope, every scope has a value owner, none of them is
+         the proposed one; then ValidateScopeValueOwnersSigners over links.GetAccAddrs().
+         NOTE: validateSmartContractSigners is not called on this path. *)
+      match vos with [] => false | _ :: _ => true end &&
+      forallb is_some_z vos &&
+      negb (mem proposed (some_addrs vos)) &&
+      match validate_value_owners_signers e (dedup_addrs [] (some_addrs vos)) proposed signers with
+      | Some _ => true
+      | None => false
+      end
   end.
 
 (** ** getAuthzMessageTypeURLs, on message kinds:
     1 MsgWriteScope, 2 MsgDeleteScope, 3 MsgAddScopeDataAccess, 4 MsgDeleteScopeDataAccess,
     5 MsgAddScopeOwner, 6 MsgDeleteScopeOwner, 7 MsgWriteSession, 8 MsgWriteRecord,
-    9 MsgDeleteRecord.  A grant for the message's own kind always counts; 3-6 also accept a
-    MsgWriteScope grant and 8 a MsgWriteSession grant. *)
+    9 MsgDeleteRecord, 10 MsgUpdateValueOwners.  A grant for the message's own kind always
+    counts; 3-6 also accept a MsgWriteScope grant and 8 a MsgWriteSession grant. *)
 Definition authz_urls (m : Z) : list Z :=
   m :: (if existsb (Z.eqb m) [3; 4; 5; 6] then [1] else if Z.eqb m 8 then [7] else []).
 
